@@ -584,6 +584,9 @@ class GraphWorld:
     def on_handler(self, ip, r, handler):
         pass
 
+    def generic_elements(self, ip, it, node):
+        return None
+
     def resolve_name(self, ip, name, node):
         return None
 
